@@ -102,6 +102,7 @@ func (t *Transport) RoundTrip(addr string, call *Call) *Call {
 		call.done()
 		return call
 	}
+	verifPoint("transport.gotConn")
 	conn.RoundTrip(call)
 	conn.lastTime = t.now
 	checkPersistConnErr(call.Error, conn)
@@ -125,6 +126,7 @@ func (t *Transport) Go(addr, serviceMethod string, args interface{}, reply inter
 		call.done()
 		return call
 	}
+	verifPoint("transport.gotConn")
 	call := conn.Go(serviceMethod, args, reply, done)
 	conn.lastTime = t.now
 	checkPersistConnErr(call.Error, conn)
@@ -137,6 +139,7 @@ func (t *Transport) Call(addr, serviceMethod string, args interface{}, reply int
 	if err != nil {
 		return err
 	}
+	verifPoint("transport.gotConn")
 	err = conn.Call(serviceMethod, args, reply)
 	conn.lastTime = t.now
 	checkPersistConnErr(err, conn)
@@ -149,6 +152,7 @@ func (t *Transport) CallWithContext(ctx context.Context, addr string, serviceMet
 	if err != nil {
 		return err
 	}
+	verifPoint("transport.gotConn")
 	err = conn.CallWithContext(ctx, serviceMethod, args, reply)
 	conn.lastTime = t.now
 	checkPersistConnErr(err, conn)
@@ -161,6 +165,7 @@ func (t *Transport) NewStream(addr, serviceMethod string) (Stream, error) {
 	if err != nil {
 		return nil, err
 	}
+	verifPoint("transport.gotConn")
 	stream, err := conn.NewStream(serviceMethod)
 	conn.lastTime = t.now
 	checkPersistConnErr(err, conn)
@@ -173,6 +178,7 @@ func (t *Transport) Ping(addr string) error {
 	if err != nil {
 		return err
 	}
+	verifPoint("transport.gotConn")
 	err = conn.Ping()
 	conn.lastTime = t.now
 	checkPersistConnErr(err, conn)
